@@ -16,7 +16,7 @@ Subset (anything else raises Unsupported -> the generated file says gen_availabl
    s = torch.vdot(u, v) [.real]                      dot u v
    (hp,) = operator(p)   |  operator(x)[0]           Hop p
    u + v, u - v (vectors), s * v (scalar * vector)   vadd / vsub / vscale
-   a / b (scalars)                                   sdiv a b   (None -> Fail)
+   a / b (scalars)                                   sdiv a b   (None -> Fail; None -> Stop when followed by `if not torch.isfinite(q): return solution`)
    tolerance ** 2, a == 0, a != 0, a < b, and/or     fmul tol tol, feqb, negb feqb, fltb, &&, ||
    if <stop test>: return solution                   Stop
    if prev is not None: <assignments>                match sprev st
@@ -122,8 +122,9 @@ def test(t, env):
     raise Unsupported(f'test {ast.unparse(t)[:80]}')
 
 
-def assign_stmt(st, env, k):
-    """translate one assignment and continue with k(env') -> coq term of type step_result.  Divisions become `match sdiv`."""
+def assign_stmt(st, env, k, on_zero='Fail'):
+    """translate one assignment and continue with k(env') -> coq term of type step_result.  Divisions become `match sdiv`; a zero divisor
+    gives Fail, or Stop when the quotient is guarded by `if not torch.isfinite(q): return solution` (on_zero='Stop')."""
     tgt = st.targets[0]
     val = st.value
     if isinstance(tgt, ast.Tuple):          # (hp,) = operator(p)
@@ -145,7 +146,7 @@ def assign_stmt(st, env, k):
             raise Unsupported('division of non-scalars')
         e2 = env.copy()
         e2[name] = (SC, name)
-        return f'match sdiv F f0 fdiv feqb {a} {b} with\n      | None => Fail\n      | Some {name} =>\n      {k(e2)}\n      end'
+        return f'match sdiv F f0 fdiv feqb {a} {b} with\n      | None => {on_zero}\n      | Some {name} =>\n      {k(e2)}\n      end'
     if _is_name(val) and env.get(val.id, (None,))[0] == SC and env.get(name, (None,))[0] == OPT:
         e2 = env.copy()
         e2[name] = (OPT, f'(Some {env[val.id][1]})')
@@ -167,6 +168,12 @@ def block(stmts, env, k):
     if isinstance(st, ast.AugAssign):
         raise Unsupported(f'augmented (in-place) assignment `{ast.unparse(st)[:60]}` (line {st.lineno})')
     if isinstance(st, ast.Assign) and len(st.targets) == 1:
+        # q = a / b  followed by  `if not torch.isfinite(q): return solution`: the quotient with its guard (exact arithmetic: b == 0 -> Stop)
+        if (isinstance(st.value, ast.BinOp) and isinstance(st.value.op, ast.Div) and isinstance(st.targets[0], ast.Name) and rest
+                and isinstance(rest[0], ast.If) and ast.unparse(rest[0].test) == f'not torch.isfinite({st.targets[0].id})'
+                and len(rest[0].body) == 1 and isinstance(rest[0].body[0], ast.Return) and _is_name(rest[0].body[0].value, 'solution')
+                and not rest[0].orelse):
+            return assign_stmt(st, env, lambda e: block(rest[1:], e, k), on_zero='Stop')
         return assign_stmt(st, env, cont)
     if isinstance(st, ast.If):
         # (a) stop test:  if <test>: return solution
